@@ -32,10 +32,14 @@ NB_CASES = 24
 QUICK_RANDOM = 304
 THOROUGH_RANDOM = 1800
 
+# RV_C08_LIMIT=<k> (development only): run only the first k quick cases.  A violation found on a prefix is also
+# found by the full tier, so this is used to confirm mutants quickly; a prefix run that stays silent proves nothing.
+_LIMIT = int(os.environ.get("RV_C08_LIMIT", 0) or 0)
+
 PLAN = {
-    "quick": {"cases": N4 + Q5 + NB_CASES + QUICK_RANDOM, "hashseeds": 3, "shards": 5, "timeout": 600,
+    "quick": {"cases": min(_LIMIT, N4 + Q5 + NB_CASES + QUICK_RANDOM) if _LIMIT else N4 + Q5 + NB_CASES + QUICK_RANDOM, "hashseeds": 3, "shards": 5, "timeout": 600,
               "min_nontrivial": 1500},
-    "thorough": {"cases": N4 + N5_USED + NB_CASES + THOROUGH_RANDOM, "hashseeds": 5, "shards": 3, "timeout": 3300,
+    "thorough": {"cases": N4 + N5_USED + NB_CASES + THOROUGH_RANDOM, "hashseeds": 4, "shards": 4, "timeout": 3300,
                  "deadline": 3000, "min_nontrivial": min(25000, N5_USED)},
 }
 RULE = ("case idx -> the idx-th labelled DAG of the exhaustive enumeration on 1..4 nodes (quick and thorough) and "
